@@ -101,7 +101,7 @@ def run(ctx, res):
             phase_sites.append(s)
         elif s.body.owner == hb.owner and s.bk == hbk and hb.dominates(ipblock, s.block):
             phase_sites.append(s)
-    res.floor("post_input_channel_sites", len(phase_sites), 4)
+    res.need("R5.phase", "post_input_channel_sites", len(phase_sites), 4, "channel operations after input processing (2 sends, 2 receives of the output phase)")
 
     contains_edges = {}   # body key -> [(switch block, true target)]
     contains_sites = 0
@@ -123,7 +123,7 @@ def run(ctx, res):
 
     send_sites = [s for s in phase_sites if PRIMS[s.prim][1]]
     recv_sites = [s for s in phase_sites if PRIMS[s.prim][2] and not PRIMS[s.prim][1]]
-    res.floor("post_input_sends", len(send_sites), 2)
+    res.count("post_input_sends", len(send_sites))
     for s in send_sites:
         b = s.body
         lab = "/".join(s.label or ["?"])
